@@ -20,7 +20,7 @@ func init() {
 				Rule: "12 session scripts (ASCII 3-packet login good / bad password / unknown user, user in START, PAP good/bad, abort at step 2 and at step 3, command authorization permitted/denied, session authorization, accounting start), each with its own user so that a leaked " +
 					"user name, prompt state or continuation changes a reply. (a) one connection: every order-preserving interleaving of every ordered pair of scripts on two session ids, and of a fixed set of triples (thorough: all triples of 6 scripts); " +
 					"(b) two connections carrying the SAME session id: every packet-level interleaving of every pair. Oracle: each session's transcript (raw reply headers and decoded bodies, per packet) equals the transcript of the same script " +
-					"run alone on a freshly built server. (c) engine E2: every pair of 5 bcrypt-free scripts on two concurrent connection goroutines sharing a session id, every schedule within the deviation bound. states = distinct (script set, interleaving position) pairs; transitions = packets delivered; traces = interleavings on which all transcripts matched",
+					"run alone on a freshly built server. (c) engine E2: every pair of 5 bcrypt-free scripts on two concurrent connection goroutines sharing a session id, every schedule within the deviation bound; plus every (abandoned login prefix on a connection that then closes, script on a new connection with the same session id) pair. states = distinct (script set, interleaving position) pairs; transitions = packets delivered; traces = interleavings on which all transcripts matched",
 				Assumptions: []string{"scripts are fixed packet lists (not adaptive to replies)"}}
 		},
 		Workers:      constInt(16, 16),
